@@ -289,6 +289,11 @@ def read_fragment(kind, name):
     return open(p, encoding='utf-8').read()
 
 
+def assume_lemmas(text):
+    """`proof fn` with a body -> external_body (used only in the strict-twin file, see build)"""
+    return re.sub(r'(?m)^(\s*)((?:#\[verifier::rlimit\(\d+\)\]\s*\n\s*)?)((?:pub\s+)?(?:broadcast\s+)?proof\s+fn\b)', r'\1#[verifier::external_body]\n\1\3', text)
+
+
 def build(unit_path, repo=None, extra_tail='', twins_only=False):
     repo = repo or REPO
     u = vspec.parse(unit_path)
@@ -319,6 +324,9 @@ def build(unit_path, repo=None, extra_tail='', twins_only=False):
             else:
                 keep.append(ln)
         body_parts.append('// ======== %s ========\n%s\n' % (nm, '\n'.join(keep)))
+    if twins_only:
+        # the strict-twin file is checked with a tiny resource limit: lemmas of the spec library are proved in the main file, here they are assumed
+        body_parts = [assume_lemmas(x) for x in body_parts]
     parts.append('\n'.join(pre_uses) + '\n')
     parts.append('verus! {\n')
     parts += body_parts
@@ -516,6 +524,8 @@ def build(unit_path, repo=None, extra_tail='', twins_only=False):
                             'rules': fired, 'verbatim': not fired and not it.as_header and not it.path.startswith('lifted '), 'props': it.props,
                             'external_body': it.external_body or twins_only, 'has_body': body is not None, 'included_from': included})
     close_impl()
+    if twins_only:
+        item_chunks = [assume_lemmas(x) if x.startswith('// ======== raw') else x for x in item_chunks]
     parts += item_chunks
     if extra_tail:
         parts.append(extra_tail)
